@@ -35,7 +35,7 @@ FRAGS = ["<", ">", "&", "\"", "'", "<script>alert(1)</script>", "</TT><script>",
          "%0d%0a", "%22", "%3c", "abc", "x y", "\xc3\xa9", "\xff"]
 payload_st = st.lists(st.sampled_from(FRAGS), min_size=1, max_size=4).map("".join)
 
-POSITIONS = ["selector-error", "url-redirect", "filename", "dirname", "html-title", "subject", "abstract-sidecar",
+POSITIONS = ["noname-path", "noname-remote-path", "selector-error", "url-redirect", "filename", "dirname", "html-title", "subject", "abstract-sidecar",
              "linkfile-name", "linkfile-abstract", "linkfile-path", "linkfile-urlpath", "linkfile-host", "map-desc", "map-sel",
              "map-url", "map-host", "wap-text", "search-item-path", "keywords-sidecar"]
 HTML_FORMS = ["http", "https", "wap", "waphdr"]
@@ -76,9 +76,9 @@ def _fit(pos, p, fam):
             return None
         return p
     if pos in ("linkfile-name", "linkfile-abstract", "linkfile-path", "linkfile-urlpath", "linkfile-host", "map-desc", "map-sel",
-               "map-url", "map-host", "subject", "search-item-path"):
+               "map-url", "map-host", "subject", "search-item-path", "noname-path", "noname-remote-path"):
         p = re.sub(r"[\t\r\n]", " ", p).strip()
-        if pos in ("linkfile-path", "map-sel", "search-item-path"):
+        if pos in ("linkfile-path", "map-sel", "search-item-path", "noname-path", "noname-remote-path"):
             p = p.replace("..", "").replace("//", "/").replace("./", "").strip("/").strip()
             if p.startswith("URL:"):
                 return None
@@ -123,6 +123,11 @@ def _build(pos, v, n, fill=0):
         spec.append(["d/.links", "f", "Name=Entry\nType=1\nPath=/d\nHost=+\nPort=+\nAbstract=%s\n" % v])
     elif pos == "linkfile-path":
         spec.append(["d/.links", "f", "Name=Entry\nType=0\nPath=/%s\nHost=+\nPort=+\n" % v])
+    elif pos == "noname-path":
+        # a link block without Name=: HTML/WML pages show the selector instead
+        spec.append(["d/.links", "f", "Type=0\nPath=/%s\nHost=+\nPort=+\n" % v])
+    elif pos == "noname-remote-path":
+        spec.append(["d/.links", "f", "Type=1\nPath=/%s\nHost=other.example\nPort=70\n" % v])
     elif pos == "search-item-path":
         spec.append(["d/.links", "f", "Name=Search\nType=7\nPath=/%s\nHost=+\nPort=+\n" % v])
     elif pos == "linkfile-urlpath":
